@@ -274,6 +274,13 @@ void RelayServer::handle_register(const std::shared_ptr<ClientSession>& session,
         return;
     }
 
+    if (!session->partner.expired()) {
+        // A connector has already claimed this session. Registering again would make it claimable a second time while
+        // the first connector still points at it.
+        queue_text(session, "ERROR busy\n");
+        return;
+    }
+
     remove_registration(session);
     session->peer_id = *peer;
     session->peer_hex = peer_id_to_string(session->peer_id);
